@@ -78,7 +78,26 @@ pub fn render_obo(f: &FactSet, rng: &mut Rng, o: &JaxOpts) -> String {
         if o.shuffle {
             rng.shuffle(&mut ps);
         }
-        let isa_lines: Vec<String> = ps.iter().map(|p| format!("is_a: {} ! {}", hp(*p), names.get(p).copied().unwrap_or("?"))).collect();
+        let mut isa_lines: Vec<String> = ps.iter().map(|p| format!("is_a: {} ! {}", hp(*p), names.get(p).copied().unwrap_or("?"))).collect();
+        if o.noise && isa_lines.len() >= 2 && rng.chance(1, 2) {
+            // tag order inside a stanza is free: other tags may sit between two is_a lines
+            let mut mixed: Vec<String> = Vec::new();
+            for (i, l) in isa_lines.into_iter().enumerate() {
+                if i > 0 && rng.chance(1, 2) {
+                    mixed.push(
+                        (*rng.pick(&[
+                            "xref: SNOMEDCT_US:12345",
+                            "synonym: \"between two parents\" EXACT []",
+                            "subset: hposlim_core",
+                            "property_value: http://purl.org/dc/terms/creator \"someone\" xsd:string",
+                        ]))
+                        .to_string(),
+                    );
+                }
+                mixed.push(l);
+            }
+            isa_lines = mixed;
+        }
         if rng.chance(1, 2) {
             lines.extend(isa_lines);
             if o.noise && rng.chance(1, 3) {
@@ -147,6 +166,12 @@ pub fn render_hpoa(f: &FactSet, rng: &mut Rng, o: &JaxOpts) -> String {
                     if !r.terms.contains(t) && rng.chance(1, 6) {
                         rows.push(format!("{prefix}:{}\t{}\tNOT\t{}\t{tail}", r.id, r.name, hp(*t)));
                     }
+                    // sources disagree now and then: a NOT row next to a regular row for the same
+                    // disease and term. NOT rows are ignored, so the regular row decides, wherever
+                    // the two rows stand in the file.
+                    if r.terms.contains(t) && rng.chance(1, 8) {
+                        rows.push(format!("{prefix}:{}\t{}\tNOT\t{}\t{tail}", r.id, r.name, hp(*t)));
+                    }
                 }
             }
             // diseases that have only NOT rows must not exist afterwards
@@ -199,11 +224,20 @@ pub fn render_hpoa(f: &FactSet, rng: &mut Rng, o: &JaxOpts) -> String {
 pub fn render_genes_to_phenotype(f: &FactSet, rng: &mut Rng, o: &JaxOpts) -> String {
     let names: BTreeMap<u32, &str> = f.terms.iter().map(|t| (t.id, t.name.as_str())).collect();
     let mut rows: Vec<String> = Vec::new();
+    // 0, 1: all six columns; 2: only the three columns the format requires; 3: mixed
+    let cols_mode = rng.below(4);
     for r in &f.recs[0] {
         for t in &r.terms {
+            if cols_mode == 2 || (cols_mode == 3 && rng.chance(1, 2)) {
+                rows.push(format!("{}\t{}\t{}", r.id, r.name, hp(*t)));
+                continue;
+            }
             let extra = if o.noise && rng.chance(1, 3) { "\textra\tcolumns" } else { "" };
+            // the frequency column is free text for this loader: "-", a ratio, a percentage or an
+            // HPO frequency term (HP:0040285 = Excluded, HP:0040283 = Occasional)
+            let freq = *rng.pick(&["-", "-", "", "3/7", "12%", "HP:0040283", "HP:0040285", "HP:0040280"]);
             rows.push(format!(
-                "{}\t{}\t{}\t{}\t-\tOMIM:243400{extra}",
+                "{}\t{}\t{}\t{}\t{freq}\tOMIM:243400{extra}",
                 r.id,
                 r.name,
                 hp(*t),
@@ -231,8 +265,14 @@ pub fn render_genes_to_phenotype(f: &FactSet, rng: &mut Rng, o: &JaxOpts) -> Str
 pub fn render_phenotype_to_genes(f: &FactSet, rng: &mut Rng, o: &JaxOpts) -> String {
     let names: BTreeMap<u32, &str> = f.terms.iter().map(|t| (t.id, t.name.as_str())).collect();
     let mut rows: Vec<String> = Vec::new();
+    // 0, 1: all columns; 2: only the four columns the format requires; 3: mixed
+    let cols_mode = rng.below(4);
     for r in &f.recs[0] {
         for t in &r.terms {
+            if cols_mode == 2 || (cols_mode == 3 && rng.chance(1, 2)) {
+                rows.push(format!("{}\t{}\t{}\t{}", hp(*t), names.get(t).copied().unwrap_or("?"), r.id, r.name));
+                continue;
+            }
             let extra = if o.noise && rng.chance(1, 3) { "\textra" } else { "" };
             rows.push(format!(
                 "{}\t{}\t{}\t{}\tOMIM:243400{extra}",
